@@ -22,6 +22,7 @@ class TapeRandom(random.Random):
         self.draws = 0
         self.forced = list(forced or [])     # hostile prefix: list of 'lo' / 'hi'
         self.log = log if log is not None else []
+        self.own = []                        # this stream's own draws, in order
 
     # the library re-seeds from the wall clock: ignore it
     def seed(self, *a, **k):
@@ -49,6 +50,7 @@ class TapeRandom(random.Random):
         else:
             v = random.Random.random(self)
         self.log.append(("random", v))
+        self.own.append(v)
         return v
 
     def randint(self, a, b):
